@@ -9,6 +9,10 @@ CHECKS = {
    text="Deductive: loop-invariant proof of the real NaiveThresholdMatching._match_instances (symbolic candidate list of any length, symbolic threshold, per metric direction and many-to-one flag) with the statement's clauses as postconditions, InstanceLabelMap and score_beats_threshold against their abstract specs, threshold monotonicity by induction; counter-models are replayed on the real function. A bounded end-to-end enumeration (labelled bounded) backs the candidate-scorer contract.",
    note=TRUST_COMMON + "assumed contract of _calc_matching_metric_of_overlapping_labels (candidates, best-first order) until its own unit lands; Pool.starmap = serial map; sorted() stable; ghost definition by well-founded recursion; induction schema applied outside the solver.",
    tech="contract-based deductive verification: AST->z3 VCs with loop invariants, counter-model replay"),
+ "C08": dict(cat="proof", design="DESIGN.md 3 C08",
+   text="Deductive: the real EdgeCaseResult/MetricZeroTPEdgeCaseHandling/EdgeCaseHandler, _handle_zero_instances_cases and PanopticaResult (constructor, lazy attribute protocol, list-metric aggregation, fp/fn calculators) are executed symbolically with the handler configuration as symbolic enum values and symbolic non-negative counts; every path's result is proved equal to the statement's scenario function (one proof covers all 5^4 x 5 configurations per metric); no exception path is feasible. Counter-models are replayed on the real classes; a bounded run drives every scenario through the real evaluator for all three input types.",
+   note=TRUST_COMMON + "np.average/np.std/np.sum/np.min/np.max on lists are uninterpreted functions (np.std default = population std); the three pipeline entry paths to the result constructor are covered by the bounded run and by C01's composition obligations.",
+   tech="contract-based deductive verification: symbolic execution of the real classes with symbolic enum configuration, z3-discharged postconditions per path, counter-model replay"),
 }
 NA_REASON = "check not built yet (build in progress, see DESIGN.md section 7)"
 def main():
